@@ -313,6 +313,8 @@ class Jitter(object):
         """
         self.breakpoints_handler.set_callback(addr, *args)
         self.jit.add_disassembly_splits(addr)
+        # De-jit previously jitted blocks
+        self.jit.updt_automod_code_range(self.vm, [(addr, addr)])
 
     def get_breakpoint(self, addr):
         """
